@@ -645,8 +645,8 @@ def _corpus(rng):
     import random
     r6 = random.Random(606)
     cases.append(_big_len(r6, 'tfeatures', 10001, 1, 'tail', table=False))
-    cases.append(_big_len(r6, 'features', 20001, 2, 'mixed'))
-    cases.append(_big_len(r6, 'features', 4097, 1, 'rev', table=True))
+    cases.append(_big_len(r6, 'features', 20001, 1, 'rev', table=True))
+    cases.append(_big_len(r6, 'features', 4097, 2, 'mixed'))
     cases.append(_big_len(r6, 'tfeatures', 16385, 3, 'two'))
     return cases
 
@@ -727,7 +727,7 @@ def generate(tier, rng):
     for _ in range(40 if quick else 600):
         cases.append(_fs_wide(rng))
     # stage 6: long requests whose length sits next to a multiple of a round block size (appended last)
-    for _ in range(8 if quick else 60):
+    for _ in range(6 if quick else 60):
         cases.append(_big_len_random(rng, 33000))
     return cases
 
